@@ -7,8 +7,8 @@ from . import common as K
 from . import boundsrules as BR
 from .c10 import typestate_function
 
-CONFIGS_QUICK = ["A", "C", "E"]
-CONFIGS_THOROUGH = ["A", "B", "C", "D", "E"]
+CONFIGS_QUICK = ["A", "C", "E", "H"]
+CONFIGS_THOROUGH = ["A", "B", "C", "D", "E", "H"]
 
 EXPLANATION = (
     "Static, clause-level decision of C18. (K1) every path of SCPI_ErrorTranslate returns a string "
@@ -26,6 +26,7 @@ EXPLANATION = (
 
 RULES = {
     "C18-N": "no integer on this property's data path is narrowed by an implicit conversion (parameter handed to a narrower parameter, stored in a narrower field, or a narrow field behind a wider accessor)",
+    "C18-K9": "SCPI_ErrorPushEx queues the text it was given, unshortened: the length that reaches the queue is the caller's, or - for length 0 - strnlen(text, SCPI_STD_ERROR_DESC_MAX_STRING_LENGTH); the only cut is the one SCPI_ResultError makes at the 255-character limit (so the text is cut as late as the limit allows)",
     "C18-K1": "SCPI_ErrorTranslate returns a non-NULL, non-empty string for every code; every code the header lists translates to its own text and every other code to the one fallback description",
     "C18-K2": "bytes written between the quotes never exceed the 255-character budget: conservation invariant, no unsigned wrap of the budget",
     "C18-K3": "opening quote first, every emitted inner quote doubled, closing quote on every path",
@@ -123,6 +124,54 @@ def rule_k1(ck, prog):
             ck.holds("C18-K1", st2, K.loc(f), "%d listed codes translate to their own text; every other evaluated code to %s"
                      % (len(listed), sorted(other)))
     ck.analysed(f)
+
+
+def rule_k9(ck, prog, S):
+    f = prog.fn("SCPI_ErrorPushEx")
+    if f is None or len(f.params) < 4:
+        ck.anchor_lost("C18-K9", "SCPI_ErrorPushEx")
+        return
+    ck.analysed(f)
+    st = K.site(f, "text-queued-unshortened", 0)
+    infop, lenp = f.params[2]["name"], f.params[3]["name"]
+    try:
+        limit = int(prog.macros.get("SCPI_STD_ERROR_DESC_MAX_STRING_LENGTH"))
+    except (TypeError, ValueError):
+        ck.anchor_lost("C18-K9", "macro SCPI_STD_ERROR_DESC_MAX_STRING_LENGTH")
+        return
+    adds = K.effect_sites(prog, S, f, lambda c_: c_.get("callee") == "SCPI_ErrorAddInternal")
+    probs = []
+    if len(adds) != 1:
+        ck.anchor_lost("C18-K9", "one SCPI_ErrorAddInternal call in SCPI_ErrorPushEx (%d)" % len(adds))
+        return
+    rep, real, host = adds[0]
+    a_text, a_len = K.arg_through(prog, rep, real, host, 2), K.arg_through(prog, rep, real, host, 3)
+    if a_text is None or a_text.strip_all_casts().get("path") != infop:
+        probs.append("the text queued is `%s`, not the text given" % (a_text.src if a_text is not None else "?"))
+    if a_len is None or a_len.strip_all_casts().get("path") != lenp:
+        probs.append("the length queued is `%s`, not the length given" % (a_len.src if a_len is not None else "?"))
+    for n_, t in C.stores(f):
+        if t.get("path") == infop:
+            probs.append("`%s` changes the text pointer" % n_.src[:50])
+        if t.get("path") != lenp:
+            continue
+        r = n_.child(1).strip_all_casts() if n_.k == "BinaryOperator" and n_.get("op") == "=" else None
+        okk = r is not None and r.k == "CallExpr" and r.get("callee") in ("strnlen", "BSD_strnlen", "strlen", "__builtin_strlen") and \
+            C.call_args(r)[0].strip_all_casts().get("path") == infop and \
+            (len(C.call_args(r)) < 2 or (C.const_of(C.call_args(r)[1]) or 0) >= limit)
+        facts = K.facts_at(S, f, n_) or []
+        auto = K.holds_rel(facts, lenp, "==", 0)
+        if not okk:
+            probs.append("`%s` replaces the length by something other than the length of the text up to the %d-character limit"
+                         % (n_.src[:60], limit))
+        elif not auto:
+            probs.append("`%s` also replaces a length the caller gave explicitly" % n_.src[:60])
+    if probs:
+        ck.violated("C18-K9", st, K.loc(f, rep), "; ".join(probs) + ": the response is cut earlier than the 255-character limit requires "
+                    "(or reports text the caller did not hand over)")
+    else:
+        ck.holds("C18-K9", st, K.loc(f, rep), "SCPI_ErrorAddInternal(context, err, %s, %s); automatic length = strnlen(%s, %d) only for %s == 0"
+                 % (infop, lenp, infop, limit, lenp))
 
 
 def rule_k2_k5(ck, prog, cfg):
@@ -335,10 +384,13 @@ def run(ck, fb, tier):
         if cfg == "E" and tier != "thorough":
             continue                     # the c89 build contributes its own duplicator; the rest equals configuration A
         rule_k1(ck, prog)
+        if cfg == "H":
+            continue                     # the user / minimal error lists change the translation table only
         rule_k2_k5(ck, prog, cfg)
         rule_k3(ck, prog, S)
         rule_k4(ck, prog, S, cfg)
         rule_k7(ck, prog, S)
+        rule_k9(ck, prog, S)
         K.narrowing_rule(ck, prog, "C18-N", lambda f_: f_.relfile.endswith(("error.c", "fifo.c")) or f_.name in ("SCPI_ResultError", "SCPI_SystemErrorNextQ", "OUR_strndup", "scpiheap_strndup"))
         if cfg == "C":
             from . import c20
